@@ -32,6 +32,7 @@ inductive PyErr where
   | typeError
   | indexError
   | keyError
+  | attributeError
   deriving DecidableEq, Repr
 
 def PyErr.tag : PyErr → String
@@ -39,6 +40,7 @@ def PyErr.tag : PyErr → String
   | .typeError => "type-error"
   | .indexError => "index-error"
   | .keyError => "key-error"
+  | .attributeError => "attribute-error"
 
 abbrev Py := Except PyErr
 
@@ -509,5 +511,140 @@ def defaultRgrid {T : Type} (table : List (Nat × T)) (build : T → R) (atnum :
   match table.find? (fun p => p.1 == atnum) with
   | some p => pure (build p.2)
   | none => throw .valueError
+
+
+/-! ### round 3: `MolGrid.interpolate`, the default radial grid, `save`
+
+Primitives the generated `Gen.MolGrid.interpolate`, `interpolate_low`, `generate_default_rgrid`,
+`save` are written in, and the hand models they are proved equal to. -/
+
+/-- `for i in range(n): state = body(state, i)` where the body may raise. -/
+def pyForRange {σ : Type} (n : Nat) (body : σ → Nat → Py σ) (s : σ) : Py σ :=
+  (List.range n).foldlM body s
+
+/-- `for x in xs: state = body(state, x)` where the body may raise. -/
+def pyForEach {σ : Type} (body : σ → α → Py σ) (xs : List α) (s : σ) : Py σ :=
+  xs.foldlM body s
+
+/-- `l[a:]` for a non-negative literal `a`. -/
+def pySliceFrom (l : List α) (a : Nat) : List α := l.drop a
+
+/-- `a * b` of two 1-D NumPy arrays: equal lengths multiply entry by entry, a length-1 operand is
+broadcast, everything else is NumPy's `ValueError` ("operands could not be broadcast together"). -/
+def npMul1 [Mul K] (a b : List K) : Py (List K) :=
+  if a.length = b.length then pure (List.zipWith (· * ·) a b)
+  else match a, b with
+    | [x], _ => pure (b.map (x * ·))
+    | _, [y] => pure (a.map (· * y))
+    | _, _ => throw .valueError
+
+/-- A NumPy array as the interpolation routines hand it back: shape and row-major data. -/
+structure NdArr (K : Type) where
+  shape : List Nat
+  data : List K
+  deriving DecidableEq, Repr
+
+/-- Row-major strides of a shape. -/
+def stridesOf : List Nat → List Nat
+  | [] => []
+  | _ :: r => r.prod :: stridesOf r
+
+/-- NumPy's rule for `out += b` (in place: the shape of `out` is kept): `b`'s shape, right-aligned
+against `out`'s, must agree with it in every axis or be 1 there (and `b` must not have more axes). -/
+def broadcastsInto (bshape oshape : List Nat) : Bool :=
+  bshape.length ≤ oshape.length &&
+    (List.zip bshape.reverse oshape.reverse).all fun p => p.1 == p.2 || p.1 == 1
+
+/-- Flat index into `b` of the entry that is added to the entry with flat index `k` of `out`. -/
+def broadcastIndex (bshape oshape : List Nat) (k : Nat) : Nat :=
+  let osh := oshape.drop (oshape.length - bshape.length)
+  let ostr := stridesOf osh
+  let bstr := stridesOf bshape
+  ((List.zip (List.zip osh ostr) (List.zip bshape bstr)).map fun q =>
+    let i := (k / q.1.2) % q.1.1
+    (if q.2.1 == 1 then 0 else i) * q.2.2).sum
+
+/-- `out += b` on NumPy arrays: same shape → entry by entry; `b` broadcastable into `out` → NumPy's
+broadcast; otherwise `ValueError`. -/
+def npIAdd [Add K] (out b : NdArr K) : Py (NdArr K) :=
+  if out.shape = b.shape then pure ⟨out.shape, List.zipWith (· + ·) out.data b.data⟩
+  else if broadcastsInto b.shape out.shape then
+    match (List.range out.data.length).mapM (fun k => b.data[broadcastIndex b.shape out.shape k]?) with
+    | some bb => pure ⟨out.shape, List.zipWith (· + ·) out.data bb⟩
+    | none => throw .valueError
+  else throw .valueError
+
+/-- What `AtomGrid.interpolate(func_vals)` hands back: a callable
+`(points, deriv, deriv_spherical, only_radial_derivs) ↦ array` (which may raise). `Q` is the type of
+the `points` argument — `MolGrid.interpolate` only passes it on. -/
+abbrev Interp (Q K : Type) := Q → Int → Bool → Bool → Py (NdArr K)
+
+/-- `atom_grid.interpolate(vals)` on what `self[i]` handed back: an `AtomGrid` has the method (a given
+component: C09), a `LocalGrid` has not (`AttributeError`). -/
+def subInterpolate {Q : Type} (atInterp : AtGrid P K → List K → Py (Interp Q K)) (g : SubGrid P K)
+    (vals : List K) : Py (Interp Q K) :=
+  match g with
+  | .atom a => atInterp a vals
+  | .localGrid .. => throw .attributeError
+
+/-- **Hand model** of the inner `interpolate_low`: the first atom's array, then `+=` the others in
+order; no atom at all is the `IndexError` of `interpolate_funcs[0]`. -/
+def sumInterp {Q : Type} [Add K] (fs : List (Interp Q K)) : Interp Q K := fun pts d ds ord =>
+  match fs with
+  | [] => throw .indexError
+  | f0 :: r => do
+    let out0 ← f0 pts d ds ord
+    r.foldlM (fun out f => do npIAdd out (← f pts d ds ord)) out0
+
+/-- **Hand model** of `MolGrid.interpolate(func_vals)`: `ValueError` without stored atomic grids; else
+atom `i` interpolates `(func_vals * aim_weights)[indices[i]:indices[i+1]]` on its stored grid, and the
+callable handed back sums the atomic interpolants. -/
+def MolGrid.interpolate {Q : Type} [Add K] [Mul K]
+    (atInterp : AtGrid P K → List K → Py (Interp Q K)) (m : MolGrid P K) (funcVals : List K) :
+    Py (Interp Q K) :=
+  match m.atgrids with
+  | none => throw .valueError
+  | some gs => do
+    let fa ← npMul1 funcVals m.aimWeights
+    let fs ← allOk (fun i : Nat => do
+      let a ← pyGet m.indices (i : Int)
+      let b ← pyGet m.indices ((i : Int) + 1)
+      let g ← pyGet gs (i : Int)
+      atInterp g (pySlice fa a b)) (List.range m.atcoords.length)
+    pure (sumInterp fs)
+
+/-- A decimal literal of the source: `mant · 10^(-scale)`, exactly. -/
+structure Dec where
+  mant : Nat
+  scale : Nat
+  deriving DecidableEq, Repr
+
+/-- The value of a decimal literal in `K` (`Float`: rounded twice, within 2 ulp of Python's reading of
+the literal; `ℚ`, `ℝ`: exact). -/
+def Dec.val [NatCast K] [Div K] (d : Dec) : K := ((d.mant : Nat) : K) / ((10 ^ d.scale : Nat) : K)
+
+/-- `key in d` for a dict literal given as a list of rows. -/
+def pyDictIn {T : Type} (d : List (Nat × T)) (key : Nat) : Bool := d.any fun p => p.1 == key
+
+/-- `d[key]` for a dict literal given as a list of rows (`KeyError` when absent). -/
+def pyDictGet {T : Type} (d : List (Nat × T)) (key : Nat) : Py T :=
+  match d.find? (fun p => p.1 == key) with
+  | some p => pure p.2
+  | none => throw .keyError
+
+/-- What `MolGrid.save` stores under a key: which attribute of which object. -/
+inductive SaveVal where
+  | self (attr : String)
+  | atgrid (i : Nat) (attr : String)
+  deriving DecidableEq, Repr
+
+/-- `d[key] = v` on a dict kept as an association list in insertion order (an existing key keeps its
+place). -/
+def pyDictSet {T : Type} (d : List (String × T)) (key : String) (v : T) : List (String × T) :=
+  if d.any (fun p => p.1 == key) then d.map (fun p => if p.1 == key then (key, v) else p)
+  else d ++ [(key, v)]
+
+/-- `str(i)` of a non-negative integer. -/
+def pyStr (i : Nat) : String := toString i
 
 end GridVerif.MolGrid
